@@ -51,6 +51,12 @@ func (x *Exec) run(st *State, b *ssa.BasicBlock, from *ssa.BasicBlock, idx int) 
 					b, from, idx = elseB, b, 0
 					goto next
 				}
+				if skip := x.effectFreeArm(t, b, st); skip != nil {
+					// a branch arm that only logs (no effect on modelled state, defines nothing that is
+					// used afterwards): both outcomes continue identically at the join block
+					b, from, idx = skip, b, 0
+					goto next
+				}
 				x.paths++
 				if x.paths > x.maxPaths {
 					x.unsup("path budget exceeded (%d)", x.maxPaths)
@@ -649,4 +655,84 @@ func (x *Exec) doReturn(st *State, results []Val) {
 		st.frames = st.frames[:len(st.frames)-1]
 	}
 	cont(st, results)
+}
+
+
+// effectFreeArm recognises `if c { <only effect-free calls> }` (no else): the then-block jumps to
+// the else-target, contains only pure computations, allocations of argument arrays and calls of
+// functions declared noeffect (logging), and no value defined in it is used outside of it. The
+// join block must not have phis. Returns the join block.
+func (x *Exec) effectFreeArm(t *ssa.If, b *ssa.BasicBlock, st *State) *ssa.BasicBlock {
+	for _, pair := range [][2]*ssa.BasicBlock{{b.Succs[0], b.Succs[1]}, {b.Succs[1], b.Succs[0]}} {
+		arm, join := pair[0], pair[1]
+		if len(arm.Preds) != 1 || len(arm.Succs) != 1 || arm.Succs[0] != join {
+			continue
+		}
+		if len(join.Instrs) > 0 {
+			if _, isPhi := join.Instrs[0].(*ssa.Phi); isPhi {
+				continue
+			}
+		}
+		ok := true
+		for _, ins := range arm.Instrs {
+			switch v := ins.(type) {
+			case *ssa.Jump, *ssa.DebugRef:
+			case *ssa.Alloc, *ssa.IndexAddr, *ssa.FieldAddr, *ssa.MakeInterface, *ssa.Slice, *ssa.BinOp, *ssa.Convert, *ssa.ChangeType, *ssa.ChangeInterface, *ssa.Extract, *ssa.Field:
+			case *ssa.UnOp:
+				// loads are fine (a nil dereference inside a logging arm is still checked by the sweep
+				// of that function when the arm is not elided: elision is only used for contract runs)
+			case *ssa.Store:
+				// only stores into arrays allocated in this arm (varargs)
+				if !x.rootIsLocalAlloc(v.Addr, []*ssa.BasicBlock{arm}, nil) {
+					ok = false
+				}
+			case *ssa.Call:
+				if !x.callIsEffectFree(&v.Call) {
+					ok = false
+				}
+			default:
+				ok = false
+			}
+			if !ok {
+				break
+			}
+			if val, isVal := ins.(ssa.Value); isVal && val.Referrers() != nil {
+				for _, r := range *val.Referrers() {
+					if r.Block() != arm {
+						ok = false
+					}
+				}
+			}
+		}
+		if ok && x.mode != "sweep" {
+			return join
+		}
+	}
+	return nil
+}
+
+func (x *Exec) callIsEffectFree(c *ssa.CallCommon) bool {
+	if c.IsInvoke() {
+		con := x.contractForMethod(c)
+		if con == nil {
+			full := "(" + types.TypeString(c.Value.Type(), func(p *types.Package) string { return p.Path() }) + ")." + c.Method.Name()
+			r := x.ruleForName(full)
+			return r != nil && r.NoEffect
+		}
+		return con.NoEffect && len(con.Requires) == 0
+	}
+	if _, ok := c.Value.(*ssa.Builtin); ok {
+		return false
+	}
+	fn := c.StaticCallee()
+	if fn == nil {
+		return false
+	}
+	if con := x.contractFor(fn); con != nil {
+		return con.NoEffect && len(con.Requires) == 0 && !con.Inline
+	}
+	if r := x.ruleFor(fn); r != nil && r.NoEffect && !isGalaxy(fn) {
+		return true
+	}
+	return false
 }
